@@ -59,10 +59,10 @@ def check(run):
     wideP = ([1e2, 1e4, 101325.0, 1e6, 1e8] if thorough else [1e2, 101325.0, 1e8])
     shipped_sets = [([gen.shipped(n) for n in gen.OXY], gen.OXY_X0), ([gen.shipped(n) for n in gen.SICO], gen.SICO_X0)]
     wide_cases = [(sps, x0, T, P) for sps, x0 in shipped_sets for T in wideT for P in wideP]
-    for sps, x0, T, P, kind in sc.cases(rng, 300 if thorough else 30, Trange=(200.0, 60000.0), Prange=(1e2, 1e8)):
+    for sps, x0, T, P, kind in sc.cases(rng, 150 if thorough else 30, Trange=(200.0, 60000.0), Prange=(1e2, 1e8)):
         wide_cases.append((sps, x0, T, P))
     for sps, x0, T, P in wide_cases:
-        ctl = (10 ** rng.uniform(5, 30), 10 ** rng.uniform(-14, -8), rng.choice([3, 50, 200, 1000, 5000] if thorough else [3, 50, 200])) if rng.random() < 0.5 else solver.DEFAULT_CONTROLS
+        ctl = (10 ** rng.uniform(5, 30), 10 ** rng.uniform(-14, -8), rng.choice([3, 50, 200, 200, 1000, 1000, 5000] if thorough else [3, 50, 200])) if rng.random() < 0.5 else solver.DEFAULT_CONTROLS
         m, nd, warned = do(sps, x0, T, P, ctl, "wide")
         if not warned:
             v = violates(m, nd, x0)
